@@ -1026,7 +1026,7 @@ class Instruction extends base.Instruction {
     }
 
     if (consecutiveLead) {
-      consecutiveLead.consecutive_lead_count = consecutiveLastIndex + 1;
+      consecutiveLead.consecutiveLeadCount = consecutiveLastIndex + 1;
     }
   }
 
